@@ -75,6 +75,14 @@ CHECKS = {
         "the issuing API is enumerated over issuer permissions x chain lengths x subject permissions.",
         "Trusts asn1tools + the repository's ASN.1 text for encoding and python-ecdsa for signatures; SSP/eeType/regions not examined; one-directional message oracle.",
     ),
+    "C03": (
+        "fault injection / mutation fuzzing of captured genuine secured packets plus attacker-built packets, judged by an independent signature verifier (delivered => genuine); exhaustive single-bit flips",
+        "Genuine packets from real signing stations are mutated at byte level (every single bit of 5 packet shapes enumerated; substitutions, "
+        "truncations, extensions) and at field level (decoded structure altered and OER re-encoded), mixed with attacker-signed packets, unsecured "
+        "packets and replays in generated histories on a real secured receiver; every delivery is re-verified with python-ecdsa against the "
+        "genuine ticket set and the delivered bytes are compared with the signed payload.",
+        "Cannot rule out forgeries outside the mutation grammar (no cryptanalysis; ECDSA malleability not generated); trusts asn1tools decode/encode and python-ecdsa.",
+    ),
 }
 
 NOT_APPLICABLE = {
